@@ -996,6 +996,38 @@ func c02DoRedo(c *Ctx, rule string) {
 	}
 }
 
+// raisesCounterToRecordKey: the arm contains `<store>.lastKey = <row>.cellID` at a point where `<row>.cellID > <store>.lastKey`
+// (or >=) is known from a branch condition — the counter only ever moves up, to the key of the record being redone.
+func raisesCounterToRecordKey(f *Func, arm ast.Node, row types.Object) bool {
+	g := f.Graph()
+	found := false
+	ast.Inspect(arm, func(x ast.Node) bool {
+		as, ok := x.(*ast.AssignStmt)
+		if !ok || as.Tok != token.ASSIGN || len(as.Lhs) != 1 || len(as.Rhs) != 1 {
+			return true
+		}
+		sel, ok := ast.Unparen(as.Lhs[0]).(*ast.SelectorExpr)
+		if !ok || sel.Sel.Name != "lastKey" || !isFieldOf(f, as.Rhs[0], row, "cellID") {
+			return true
+		}
+		if guardedRaise(f, g, as) {
+			found = true
+		}
+		return true
+	})
+	return found
+}
+
+// guardedRaise: at the assignment `L = R`, `R > L` (or `R >= L`) is implied by a branch condition on every path.
+func guardedRaise(f *Func, g *Graph, as *ast.AssignStmt) bool {
+	loc, ok := g.Locate(as)
+	if !ok {
+		return false
+	}
+	l, r := exprKey(as.Lhs[0]), exprKey(f.stripConv(as.Rhs[0]))
+	return g.HoldsAt(loc, Rel{r, token.GTR, l}) || g.HoldsAt(loc, Rel{r, token.GEQ, l}) || g.HoldsAt(loc, Rel{exprKey(as.Rhs[0]), token.GTR, l})
+}
+
 func redoArmMatches(f *Func, ri *replayInfo, arm *ast.BlockStmt, kind string) (bool, string) {
 	row := ri.row
 	dirtyOK := func() bool {
@@ -1026,10 +1058,17 @@ func redoArmMatches(f *Func, ri *replayInfo, arm *ast.BlockStmt, kind string) (b
 				if !rooted {
 					return false, "the tree used for redo is not rooted at the page named by the record"
 				}
-				if len(f.Calls(arm, false, "storage.*.incrementLastKey")) == 0 {
-					return false, "redo of an insert does not advance the row-id counter: the next INSERT after recovery reuses a row id"
+				// the counter must COVER the record's key. Counting one id per replayed record (incrementLastKey) falls
+				// behind the ids that refused inserts consumed before the crash (BTree.insert advances the counter
+				// whether or not the insert was accepted): the next INSERT after recovery is refused with
+				// "record already exists" (defect D23).
+				if raisesCounterToRecordKey(f, arm, row) {
+					return true, "insertKey(record.cellID, record.LSN, record.val) on the tree rooted at the record's page; row-id counter raised to the record's key"
 				}
-				return true, "insertKey(record.cellID, record.LSN, record.val) on the tree rooted at the record's page; row-id counter advanced"
+				if len(f.Calls(arm, false, "storage.*.incrementLastKey")) != 0 {
+					return false, "redo of an insert counts one row id per replayed record instead of raising the counter to the record's key: ids that refused inserts consumed before the crash are handed out again and the next INSERT after recovery fails with 'record already exists'"
+				}
+				return false, "redo of an insert does not advance the row-id counter: the next INSERT after recovery reuses a row id"
 			}
 		}
 		return false, "no insertKey(record.cellID, record.LSN, record.val)"
